@@ -1172,6 +1172,51 @@ def _(i, st, a, c):
     return out
 
 
+@model(r'<.* as Iterator>::fold')
+def _(i, st, a, c):
+    items = _as_list(i, st, a[0])
+    work = [(st, a[1])]
+    for it in items:
+        nxt = []
+        for s, acc in work:
+            for s2, v in i.call_closure(s, a[2], [acc, it]):
+                nxt.append((s2, v))
+        work = nxt
+    return work
+
+
+@model(r'<.* as Iterator>::(product|sum)')
+def _(i, st, a, c):
+    items = _as_list(i, st, a[0])
+    items = [i.deref_read(st, x) if isinstance(x, Ref) else x for x in items]
+    op = '*' if c.rstrip('>').split('::')[-1].startswith('product') or '::product' in c else '+'
+    if not items:
+        raise Unsupported('product / sum of an empty iterator (type of the neutral element unknown)')
+    r = items[0]
+    for x in items[1:]:
+        r = arith(op, r, x)
+    return r
+
+
+@model(r'<[ui](8|16|32|64|128|size) as TryInto>::try_into', r'<[ui](8|16|32|64|128|size) as TryFrom>::try_from')
+def _(i, st, a, c):
+    m = re.search(r'as Try(?:Into|From)<([ui])(8|16|32|64|128|size)>', c)
+    if not m:
+        raise Unsupported('target of ' + c)
+    sg, bits = m.group(1), 64 if m.group(2) == 'size' else int(m.group(2))
+    lo, hi = (0, (1 << bits) - 1) if sg == 'u' else (-(1 << (bits - 1)), (1 << (bits - 1)) - 1)
+    v = a[0]
+    if not is_z3(v):
+        return Var('Ok', (v,), 'Result') if lo <= v <= hi else Var('Err', (Opaque('TryFromIntError'),), 'Result')
+    out = []
+    for cond, res in ((z3.And(v >= lo, v <= hi), Var('Ok', (v,), 'Result')), (z3.Or(v < lo, v > hi), Var('Err', (Opaque('TryFromIntError'),), 'Result'))):
+        if i.feasible(st, cond):
+            s2 = st.fork()
+            s2.pc.append(cond)
+            out.append((s2, res))
+    return out
+
+
 @model(r'<.* as Iterator>::collect')
 def _(i, st, a, c): return Agg('Vec', _as_list(i, st, a[0]))
 
